@@ -8,7 +8,7 @@ CONSTANTS
   SDates = {10, 20}
   DelDates = {25}
   DelSigners = {1}
-  Interleave = TRUE
+  MixDeletes = TRUE
   Mode = "bfs"
   Depth = 2
   MinItems = 2
